@@ -640,6 +640,10 @@ package main
 //@   ensures [C03] suspended_loads_read_only: err == nil && stopic != nil && stopic.State == types.StateSuspended ==> (t.status & topicStatusReadOnly) != 0
 //@   assert at call store.TopicsPersistenceInterface.CreateP2P [C07] peer_given_p2p: ($2.ModeGiven & ^types.ModeCP2P) == 0 && ($2.ModeGiven & types.ModeApprove) != 0 && ($2.ModeWant & ^types.ModeCP2P) == 0 && ($2.ModeWant & types.ModeApprove) != 0
 //@   assert at call store.TopicsPersistenceInterface.CreateP2P [C07] requester_want_p2p: ($1.ModeWant & ^types.ModeCP2P) == 0 && ($1.ModeWant & types.ModeApprove) != 0
+// (C07: "unsubscribing and subscribing again restores the previous grant instead of the default" - also when the p2p topic
+// was unloaded in between: the requester's earlier row is looked up, and if there is one its grant - a ban included - is
+// what the recreated subscription gets)
+//@   assert at call store.SubsPersistenceInterface.Create [C07] returning_requester_gets_previous_grant: user1only ==> subGets > old(subGets) && len($1) == 1 && (gotFound ==> $1[0].ModeGiven == (gotGiven & types.ModeCP2P))
 //@   assert at call store.TopicsPersistenceInterface.CreateP2P [C07] requester_given_p2p: ($1.ModeGiven & ^types.ModeCP2P) == 0
 
 // C12: an API key is accepted only if its last 16 bytes are HMAC-MD5, under the server's salt, of its first 8 bytes,
